@@ -18,6 +18,13 @@ var VerifHooks struct {
 	OnChild func(ctx context.Context)
 	// OnIntern is called inside the critical section of NewAtom after a new atom got interned.
 	OnIntern func(name string, a Atom, n int)
+	// OnActivate is called when a clause of a user-defined procedure is about to be executed against args.
+	OnActivate func(c VerifClause, args []Term, env *Env)
+	// OnInstr is called for every instruction the VM executes.
+	OnInstr func(op string)
+	// OnHeadDone is called when the VM reaches the enter or exit instruction of a clause (env: the bindings in force)
+	// or gives up because a get instruction did not unify (env == nil).
+	OnHeadDone func(env *Env)
 }
 
 func verifOnCall(vm *VM, name Atom, args []Term, env *Env) {
@@ -35,6 +42,24 @@ func verifOnPoll(ctx context.Context) {
 func verifOnChild(ctx context.Context) {
 	if h := VerifHooks.OnChild; h != nil {
 		h(ctx)
+	}
+}
+
+func verifOnActivate(c *clause, args []Term, env *Env) {
+	if h := VerifHooks.OnActivate; h != nil {
+		h(verifClauses(clauses{*c})[0], args, env)
+	}
+}
+
+func verifOnInstr(op opcode) {
+	if h := VerifHooks.OnInstr; h != nil {
+		h(verifOpNames[op])
+	}
+}
+
+func verifOnHeadDone(env *Env) {
+	if h := VerifHooks.OnHeadDone; h != nil {
+		h(env)
 	}
 }
 
